@@ -73,7 +73,6 @@ Proof.
   intros E. rewrite E in H. exact H.
 Qed.
 
-Lemma fetch_step_dir : forall P c f R L R' L',
-  c_op L = OFetch -> step P c f R L = (R', L') -> r_dir R' = r_dir R.
-Proof. intros P c f R L R' L' Ho H. step_cases H; try congruence; first [reflexivity | congruence]. Qed.
-
+Lemma fetch_step_same : forall P c f R L R' L',
+  c_op L = OFetch -> step P c f R L = (R', L') -> r_files R' = r_files R /\ r_dir R' = r_dir R.
+Proof. intros P c f R L R' L' Ho H. step_cases H; try congruence; split; first [reflexivity | congruence]. Qed.
